@@ -116,6 +116,8 @@ class Effects:
                         res |= self.alias_of_expr(f, d.value, d.node, depth + 1)
                 elif d.kind == 'for':
                     res |= self.alias_of_iter(f, d.value, d.node, depth + 1)
+                elif d.kind == 'aug' and not isinstance(f.nodes[d.node].stmt, ast.AugAssign):
+                    pass        # `x = x op e` (normalised to an augmented definition) binds a new object
                 elif d.kind in ('mutate', 'aug'):
                     # the object is the same as before the statement
                     res |= self.alias_of_name(f, name, d.node, depth + 1)
@@ -482,7 +484,7 @@ def r_state(ctx):
     # module-level mutable objects
     for m in ctx.p.modules.values():
         for name, v in m.globals.items():
-            ok = _immutable_default(v)
+            ok = _immutable_default(v, m.globals)
             run.check(ok, 'R-STATE', m.name + '.<module>', 'module-global:%s' % name, getattr(v, 'lineno', 0),
                       'immutable module-level value', 'module-level mutable object %s = %s can carry state between calls'
                       % (name, ast.unparse(v)[:60]), inputs='any two calls in one process', nontrivial=False)
@@ -525,13 +527,13 @@ def state_violations(ctx, f):
                     if b is not None and b not in f.locals and b in f.module.globals:
                         bad.append((nd.lineno, 'mutating call on module-level object %s' % ast.unparse(c.func)))
                 if isinstance(c, ast.Name) and isinstance(c.ctx, ast.Load) and c.id not in f.locals \
-                        and c.id in f.module.globals and not _immutable_default(f.module.globals[c.id]):
+                        and c.id in f.module.globals and not _immutable_default(f.module.globals[c.id], f.module.globals):
                     bad.append((nd.lineno, 'reads the module-level mutable object %s' % c.id))
                 if isinstance(c, ast.Attribute) and isinstance(c.ctx, ast.Store) and isinstance(c.value, ast.Name) \
                         and c.value.id in f.module.funcs:
                     bad.append((nd.lineno, 'function attribute store %s' % ast.unparse(c)))
     for p, d in f.defaults.items():
-        if not _immutable_default(d):
+        if not _immutable_default(d, f.module.globals):
             bad.append((f.node.lineno, 'mutable default %s=%s' % (p, ast.unparse(d))))
     # de-duplicate
     seen, out = set(), []
@@ -600,13 +602,36 @@ def r_namesake(ctx, fqs):
                nontrivial=False)
 
 
-def _immutable_default(d):
+_IMMUTABLE_RESULT = {'len', 'int', 'float', 'str', 'bool', 'abs', 'min', 'max', 'round', 'pow', 'frozenset', 'tuple', 'ord',
+                     'chr', 'sum', 'divmod', 'bytes', 'complex', 'hash', 'repr'}
+
+
+def _immutable_default(d, globals_=None, depth=0):
+    """is the value of expression d an immutable object built from immutable parts (so that it cannot carry state)?"""
+    if depth > 8:
+        return False
+    rec = lambda x: _immutable_default(x, globals_, depth + 1)
     if isinstance(d, ast.Constant):
         return True
-    if isinstance(d, ast.UnaryOp) and isinstance(d.operand, ast.Constant):
-        return True
+    if isinstance(d, ast.UnaryOp):
+        return rec(d.operand)
+    if isinstance(d, ast.BinOp):
+        return rec(d.left) and rec(d.right)
+    if isinstance(d, ast.Compare):
+        return rec(d.left) and all(rec(x) for x in d.comparators)
     if isinstance(d, ast.Tuple):
-        return all(_immutable_default(x) for x in d.elts)
+        return all(rec(x) for x in d.elts)
+    if isinstance(d, ast.Subscript):
+        return rec(d.value) and (isinstance(d.slice, ast.Slice) or rec(d.slice))
+    if isinstance(d, ast.Name):
+        if d.id in ('True', 'False', 'None'):
+            return True
+        return globals_ is not None and d.id in globals_ and globals_[d.id] is not d and rec(globals_[d.id])
+    if isinstance(d, ast.Call) and isinstance(d.func, ast.Name) and d.func.id in _IMMUTABLE_RESULT and not d.keywords \
+            and not (globals_ is not None and d.func.id in globals_):
+        return all(rec(a) for a in d.args)
+    if isinstance(d, ast.JoinedStr):
+        return True
     return False
 
 
